@@ -104,29 +104,29 @@ def _check(ivs, sq, st, ft, thr):
     out = list(db.merge(fs, merge_criteria=crit))
     runs = _expected_runs(fs, thr)
     if len(out) != len(runs):
-        return "number of outputs %d, expected %d runs" % (len(out), len(runs))
+        return hx.msg("number of outputs %d, expected %d runs", len(out), len(runs))
     new_ids = []
     for o, r in zip(out, runs):
         members = r[0]
         if len(members) == 1:
             if o is not fs[members[0]]:
-                return "singleton run %s not yielded as the unchanged input object" % members
+                return hx.msg("singleton run %s not yielded as the unchanged input object", members)
             if len(o.children) != 0:
                 return "unmerged feature has children"
         else:
             if len(o.children) != len(members) or any(ch is not fs[m] for ch, m in zip(o.children, members)):
-                return "children of merged output are not exactly the run members %s" % members
+                return hx.msg("children of merged output are not exactly the run members %s", members)
             if o.start != r[1] or o.end != r[2]:
-                return "merged extent %s-%s, expected %s-%s" % (o.start, o.end, r[1], r[2])
+                return hx.msg("merged extent %s-%s, expected %s-%s", o.start, o.end, r[1], r[2])
             if any(o is f for f in fs):
                 return "merged output is one of the inputs"
             new_ids.append(o.id)
             if o.id is None or any(o.id == f.id or [o.id] == f.attributes["ID"] for f in fs):
-                return "merged id %r not fresh" % (o.id,)
+                return hx.msg("merged id %r not fresh", o.id)
     for i in range(len(new_ids)):
         for j in range(i + 1, len(new_ids)):
             if new_ids[i] == new_ids[j]:
-                return "two merged outputs share id %r" % new_ids[i]
+                return hx.msg("two merged outputs share id %r", new_ids[i])
     if _snapshot(fs) != before:
         return "inputs were modified"
     # merging the same objects again gives the same result
